@@ -13,6 +13,10 @@
 (*   mismatched close     -> error; ok is a violation when a binding written after the bad close is  *)
 (*                           retrievable nowhere (observably dropped), otherwise only an observation *)
 (*   any                  -> never panic                                                             *)
+(* Lines without '=' (Conf.tla): the document is compared under both readings -- such a line binds  *)
+(* its key to the empty value / it only is a line -- and has to agree with ONE of them in every      *)
+(* answer (which one is recorded in the verdict, field rd); "neither" is a wrong result: e.g. a bare *)
+(* key listed as a key where it stands alone, but an earlier k=v kept where it follows one.          *)
 (* A "fuzz" record (arbitrary bytes) only has a class: it must not be panic.                         *)
 (* Output: verdicts.ndjson, one verdict per record; sig # "" is a rejected record.                   *)
 EXTENDS Conf, Json
@@ -53,7 +57,7 @@ ExpLineTexts(r, p, withNoKey) ==
 Failed(rec, r) ==
    UNION {
      LET e   == EntryAt(rec, p)
-         opt == OptKeys(r, p)
+         opt == {}                 \* keys written without '=' are judged like all others, under the reading r was computed with
          m   == e.map
      IN (IF Range(e.subs) = Subs(r, p) /\ NoDup(e.subs) THEN {} ELSE {"GetDomain"})
         \cup (IF (Range(e.keys) \ opt) = (KeysOf(r, p) \ opt) /\ NoDup(e.keys) THEN {} ELSE {"GetDomainKey"})
@@ -77,7 +81,7 @@ Sane(rec, r) ==
                              /\ doc[i].t = "kv" => doc[i].v \in CleanVocab /\ doc[i].k \in {"k1", "k2"}
                              /\ doc[i].t = "hos" => doc[i].k \in {"k1", "k2"}
                              /\ doc[i].t \in {"open", "close"} => doc[i].k \in {"app", "Obj.Adapter", "db-2"}
-                             /\ doc[i].t = "key" => doc[i].k = "k3"
+                             /\ doc[i].t = "key" => doc[i].k \in {"k1", "k2", "k3"}
    /\ \A p \in DOMAIN r.dom : Len(p) <= rec.depth /\ Range(p) \subseteq Range(rec.names)
    /\ \A p \in DOMAIN r.dom : (KeysOf(r, p) \cup OptKeys(r, p)) \subseteq Range(rec.keys)
    /\ {"k1", "k2"} \subseteq Range(rec.keys)
@@ -109,7 +113,7 @@ Dropped(rec, r) == \E i \in (r.fault + 1)..Len(rec.lines) :
    /\ \A p \in AllPaths(Range(rec.names), rec.depth) : ResAt(EntryAt(rec, p), rec.lines[i].k)[2] # rec.lines[i].v
 \* something written is absent from the answers (as opposed to present with a different value)
 Missing(rec, r) == \E p \in DOMAIN r.dom :
-   LET e == EntryAt(rec, p) opt == OptKeys(r, p) IN
+   LET e == EntryAt(rec, p) opt == {} IN
    \/ \E k \in KeysOf(r, p) \ opt : ResAt(e, k)[2] = "<D>" \/ k \notin Range(e.keys)
    \/ ~(Subs(r, p) \subseteq Range(e.subs))
    \/ Len(e.lines) < Len(ExpLineTexts(r, p, FALSE))
@@ -121,32 +125,43 @@ Differs(rec, r, fs, partial) == IF fs = {} THEN "" ELSE IF Missing(rec, r) THEN 
 XmlBreaking(doc) == \E i \in 1..Len(doc) : HostileLn(doc[i]) /\ doc[i].v # "2>1"
 HasLong(doc) == \E i \in 1..Len(doc) : Binding(doc[i]) /\ doc[i].v = LongVal
 
-V(i, cls, impl, sig, obs) == [i |-> i, cls |-> cls, impl |-> impl, sig |-> sig, obs |-> obs, fs |-> <<>>]
+V(i, cls, impl, sig, obs) == [i |-> i, cls |-> cls, impl |-> impl, sig |-> sig, obs |-> obs, fs |-> <<>>, rd |-> ""]
 VF(i, cls, impl, sig, obs, fs) == [i |-> i, cls |-> cls, impl |-> impl, sig |-> sig, obs |-> obs,
-                                fs |-> SelectSeq(Priority, LAMBDA g : g \in fs)]
+                                fs |-> SelectSeq(Priority, LAMBDA g : g \in fs), rd |-> ""]
+\* a wrong result of a document with lines without '=' that fits neither reading names that class
+Bare(sig, rd) == IF rd = "neither" /\ sig # "" THEN sig \o ":document-with-key-only-lines" ELSE sig
 Judge(i) ==
   LET rec == Recs[i] IN
   IF rec.kind = "fuzz"
   THEN V(i, "fuzz", rec.class, IF rec.class = "panic" THEN "panic:arbitrary-bytes" ELSE IF rec.class \in {"ok", "err"} THEN "" ELSE "harness:class", "")
   ELSE
   LET doc == rec.lines
-      r   == Run(doc)
-      cls == RefClass(doc, r)
-      fs  == Failed(rec, r)
-      keyonly == \E p \in DOMAIN r.dom : OptKeys(r, p) # {} /\ OptKeys(r, p) \subseteq Range(EntryAt(rec, p).keys)
+      rF  == Run(doc)
+      cls == RefClass(doc, rF)
+      bare == HasBare(doc) /\ rec.class = "ok"
+      rT  == IF bare THEN RunR(doc, TRUE) ELSE rF
+      fsF == IF rec.class = "ok" THEN Failed(rec, rF) ELSE {}
+      fsT == IF bare THEN Failed(rec, rT) ELSE fsF
+      rd  == IF ~bare THEN "" ELSE IF fsT = {} /\ fsF = {} THEN "either" ELSE IF fsT = {} THEN "defines"
+             ELSE IF fsF = {} THEN "ignored" ELSE "neither"
+      useT == bare /\ fsF # {} /\ Cardinality(fsT) <= Cardinality(fsF)      \* the reading the answers are closer to
+      r   == IF useT THEN rT ELSE rF
+      fs  == IF fsT = {} \/ fsF = {} THEN {} ELSE IF useT THEN fsT ELSE fsF
       obs == IF rec.class = "ok" /\ rec.shared # <<>> THEN "listing-storage-shared-between-two-callers"
-             ELSE IF rec.class = "ok" /\ keyonly THEN "key-only-line-defines-key" ELSE ""
-  IN IF ~Sane(rec, r) THEN V(i, cls, rec.class, "harness:record-not-sane", "")
+             ELSE IF rd = "defines" THEN "key-only-line-defines-key"
+             ELSE IF rd = "ignored" THEN "key-only-line-ignored" ELSE ""
+      Out(v) == [v EXCEPT !.rd = rd, !.sig = Bare(v.sig, rd)]
+  IN IF ~Sane(rec, rF) THEN V(i, cls, rec.class, "harness:record-not-sane", "")
      ELSE IF rec.class = "panic" THEN V(i, cls, "panic", "panic:" \o cls, "")
      ELSE IF rec.class = "err" THEN V(i, cls, "err", IF cls = "wellformed" THEN "spurious-error:wellformed-document" ELSE "", "")
-     ELSE Again(rec,
+     ELSE Again(rec, Out(
           CASE cls = "mismatch"   -> IF Dropped(rec, r) THEN V(i, cls, "ok", "silent-partial:mismatched-close", obs)
                                      ELSE V(i, cls, "ok", "", "mismatched-close-accepted")
             [] cls = "hostile"    -> VF(i, cls, "ok", IF XmlBreaking(doc) THEN (IF fs = {} THEN "" ELSE "silent-partial:xml-token-error")
                                                       ELSE Differs(rec, r, fs, "xml-token-error"), obs, fs)
             [] cls = "unclosed"   -> VF(i, cls, "ok", Differs(rec, r, fs, "unclosed-domain"), obs, fs)
             [] cls = "wellformed" -> VF(i, cls, "ok", IF HasLong(doc) THEN Differs(rec, r, fs, "line-over-64KiB")
-                                                      ELSE IF fs = {} THEN "" ELSE "wrong-result:" \o First(fs), obs, fs))
+                                                      ELSE IF fs = {} THEN "" ELSE "wrong-result:" \o First(fs), obs, fs)))
 Verdicts == [i \in 1..Len(Recs) |-> Judge(i)]
 ASSUME VocabSane
 ASSUME ndJsonSerialize("verdicts.ndjson", Verdicts)
